@@ -15,13 +15,15 @@ LEVEL_TEXT = ("Theorems in Coq (Props/C12.v) over a model of addition, Rightshif
               "A||0||C||0||[len A]_64||[len C]_64 with bit lengths; J0 for 96-bit and all other IV lengths; the counter is inc32 (low 32 bits, "
               "wrap); the loops are GCTR; Sm4GCM/GCMEncrypt return GCM-AE's (C,T) and Sm4GCM/GCMDecrypt return GCTR(C) and GCM-AD's recomputed tag "
               "for every 16-byte key, IV of any length, A and P; decrypt(encrypt) returns P and the same tag; the returned tag is "
-              "E(K,J0) xor GHASH_H(A,C) and two tags under one key/IV agree iff the GHASH values agree. The model is run (extracted, block "
+              "E(K,J0) xor GHASH_H(A,C), two tags under one key/IV agree iff the GHASH values agree, GHASH is additive and a difference confined to one "
+              "block Delta leaves the tag unchanged iff Delta.H^(k+1) = 0. The model is run (extracted, block "
               "cipher = SM4Spec) against /repo and /repo against crypto/cipher's GCM over sm4.NewCipher (the TLS suites' computation).")
 LEVEL_NOTE = ("Trusted: Coq kernel incl. vm_compute, extraction (ExtrOcamlBasic only), the hand-written model of sm4_gcm.go's control flow (tied "
               "by the differential run), the transcription of SP 800-38D in GCMSpec.v (validated by RFC 8998 A.1 and tied to crypto/cipher by the "
               "driver's oracle). The block cipher is abstract (16-byte outputs); C05 supplies SM4. The helpers do not compare tags themselves: "
-              "what is proved is what the returned tag is; that a modified (IV,A,C) changes GHASH except when Delta.H^k = 0 is the standard "
-              "algebraic argument and is exercised by every single-bit flip in the run, not proved. Caller memory (IV/A/P with spare capacity) "
+              "what is proved is what the returned tag is and the equation Delta.H^(k+1) = 0 for single-block differences; that this product is "
+              "non-zero (no zero divisors: irreducibility of the GCM polynomial) is not proved, and differences in the IV or spread over several "
+              "blocks are only exercised by the single-bit flips of the run. Caller memory (IV/A/P with spare capacity) "
               "is checked by canaries in the run only.")
 TRUSTED_BASE = [
     "specification coq/SM4/GCMSpec.v transcribed by hand from NIST SP 800-38D; validated by RFC 8998 A.1 (SM4-GCM) as an Example",
